@@ -23,5 +23,12 @@ GROUP = dict(
         dict(file=ISI, cls="ISIMIP", func="_step6_scale_nr_of_entries_to_set_to_bounds", lean="scale_nr_of_entries_to_set_to_bounds",
              params={"nr_of_entries_to_set_to_lower_bound": "Int", "nr_of_entries_to_set_to_upper_bound": "Int",
                      "size_cm_future": "Int"}, ret=("Int", "Int")),
+        # the threshold masks: "beyond" is x <= lower_threshold / x >= upper_threshold, "between" is strict on both sides
+        dict(file=ISI, cls="ISIMIP", func="_get_mask_for_values_beyond_lower_threshold", lean="get_mask_for_values_beyond_lower_threshold",
+             params={"self_lower_threshold": "Rat", "x": "List Rat"}, ret=MASK),
+        dict(file=ISI, cls="ISIMIP", func="_get_mask_for_values_beyond_upper_threshold", lean="get_mask_for_values_beyond_upper_threshold",
+             params={"self_upper_threshold": "Rat", "x": "List Rat"}, ret=MASK),
+        dict(file=ISI, cls="ISIMIP", func="_get_mask_for_values_between_thresholds", lean="get_mask_for_values_between_thresholds",
+             params={"self_lower_threshold": "Rat", "self_upper_threshold": "Rat", "x": "List Rat"}, ret=MASK),
     ],
 )
